@@ -27,7 +27,11 @@ var menuTSME = vrt.MenuOf(vrt.KPreempt, vrt.KSwitch, vrt.KSelect, vrt.KEnv, vrt.
 func scenarioUnit(s *Scenario, opt exploreOpts, oracles ...Oracle) *Unit {
 	return &Unit{Name: s.Name, Run: func(deadline time.Time) *UnitResult {
 		res := &UnitResult{}
-		if _, err := s.prepared(); err != nil {
+		if s.ParseOnly {
+			if s.Ref == nil {
+				s.Ref = &RefRun{}
+			}
+		} else if _, err := s.prepared(); err != nil {
 			res.HarnessErrors = append(res.HarnessErrors, "scenario "+s.Name+" does not prepare: "+err.Error())
 			return res
 		}
@@ -129,6 +133,7 @@ func runScenarios(tier string, noBlocked bool) []*Scenario {
 			scs = append(scs, buildScenarios([]*Program{p}, []stepAlt{altsBasic[0], altsMore[0], altsMore[1]}, 40)...)
 		}
 	}
+	scs = append(scs, hangScenarios()...)
 	var out []*Scenario
 	for _, s := range scs {
 		s.Ref = evalProgram(s.Prog, s.Script, s.Input)
@@ -197,6 +202,21 @@ func init() {
 			var us []*Unit
 			for _, s := range runScenarios(tier, true) {
 				us = append(us, scenarioUnit(s, exploreOpts{bound: tierBound(tier, 1, 2), menu: menuTSE, cancelMS: -1}, oracleC05))
+			}
+			// run-time faults of schema reading and of closing (start failure, close errors)
+			faultAlts := []stepAlt{altsBasic[0], altsBasic[2], {"schemafail", env.StepScript{ReadSchemaFails: true}}, {"closefail", env.StepScript{ClientCloseFail: true, ConnCloseFails: true}},
+				{"crash-closefail", env.StepScript{Run: env.RunCrash, ClientCloseFail: true, ConnCloseFails: true}}, {"hang-closefail", env.StepScript{Run: env.RunHangCancel, ConnCloseFails: true}}}
+			for _, s := range buildScenarios([]*Program{progSingle(), progChain(2), progFanIn(), progForeach(subProg(), 2), progStopProducer()}, faultAlts, 40) {
+				s.Ref = evalProgram(s.Prog, s.Script, s.Input)
+				if (s.Ref.ResultID == "" && !s.Ref.ResultErr) || s.Ref.MayHang {
+					continue
+				}
+				s.Name += "/faults"
+				us = append(us, scenarioUnit(s, exploreOpts{bound: tierBound(tier, 1, 2), menu: menuTSE, cancelMS: -1}, oracleC05, oracleC01))
+			}
+			// parsing: the temporary deployments made to read plugin schemas, under probe faults
+			for _, s := range parseScenarios(tier) {
+				us = append(us, scenarioUnit(s, exploreOpts{bound: tierBound(tier, 1, 2), menu: menuTSE, cancelMS: -1}, oracleC05, oracleC07))
 			}
 			// the same oracle at every cancellation point
 			for _, s := range buildScenarios(cancelPrograms(), altsCancel, tierBound(tier, 30, 120)) {
@@ -396,4 +416,52 @@ func wideScenarios(tier string) []*Scenario {
 		})
 	}
 	return out
+}
+
+// parseScenarios: Prepare of catalogue programs while the schema probe of each plugin (or of all)
+// fails to deploy, deploys slowly, cannot be read, or cannot be closed.
+func parseScenarios(tier string) []*Scenario {
+	faults := []stepAlt{
+		{"probe-ok", env.StepScript{}},
+		{"probe-nodeploy", env.StepScript{ProbeDeployFail: true}},
+		{"probe-readfail", env.StepScript{ReadSchemaFails: true}},
+		{"probe-closefail", env.StepScript{ClientCloseFail: true, ConnCloseFails: true}},
+		{"probe-readfail-closefail", env.StepScript{ReadSchemaFails: true, ClientCloseFail: true, ConnCloseFails: true}},
+		{"probe-slow", env.StepScript{DeployMS: 20}},
+	}
+	progs := []*Program{progSingle(), progChain(2), progFanIn(), progForeach(subProg(), 2), progOneOf2(), progDeployExpr()}
+	if tier == "thorough" {
+		progs = catalogue()
+	}
+	var out []*Scenario
+	for _, p := range progs {
+		for _, sc := range vectors(p, faults, 40) {
+			s := &Scenario{Class: "parse-" + p.Name, Prog: p, Script: sc, Input: map[string]any{"n": 5}, ParseOnly: true}
+			s.Name = "parse-" + p.Name + "/" + parseVecName(sc)
+			out = append(out, s)
+		}
+	}
+	return out
+}
+
+func parseVecName(sc *env.Script) string {
+	var parts []string
+	for _, k := range sortedKeys(sc.Steps) {
+		st := sc.Steps[k]
+		n := "ok"
+		switch {
+		case st.ProbeDeployFail:
+			n = "nodeploy"
+		case st.ReadSchemaFails && st.ConnCloseFails:
+			n = "readfail+closefail"
+		case st.ReadSchemaFails:
+			n = "readfail"
+		case st.ConnCloseFails:
+			n = "closefail"
+		case st.DeployMS > 0:
+			n = "slow"
+		}
+		parts = append(parts, k+"="+n)
+	}
+	return strings.Join(parts, ",")
 }
